@@ -23,7 +23,7 @@ RULE = (
     "found = property holds for this instance (complete decision, since the "
     "filtered tree is a subtree of the full one), tree exhausted without one = "
     "violation; the search uses either a fresh dispatcher per node or ONE "
-    "dispatcher that is reset and replayed for every node (how tree searches "
+    "dispatcher that is reset and replayed for every node (how tree searches - half of the levels walk the very list object available_operations() handed out for the state while the sub-trees are explored - "
     "and RL loops use it; one case in six repeats the search with every decision going through SingleJobShopGraphEnv.step), optionally with the feature observers of an RL environment (is-ready, earliest start time, duration) attached to it; the same search is run with the default filter of the RL "
     "environments when that is not the dominated-operations filter itself. A "
     "template family and four fixed instances whose optimum no non-delay "
@@ -278,7 +278,8 @@ def search(ctx, inst, instance, opt, filt, stats, reuse=False, observed=False, e
         lb = max([m.makespan()] + [jf[j] + tails[j][m.next[j]] for j in range(n_jobs)])
         if lb > opt:
             return False
-        avail = [fp.jp(o) for o in d.available_operations()]
+        held = d.available_operations()
+        avail = [fp.jp(o) for o in held]
         ready = m.ready()
         ctx.check(
             all(a in ready for a in avail),
@@ -293,6 +294,18 @@ def search(ctx, inst, instance, opt, filt, stats, reuse=False, observed=False, e
                 children.append((m.start(j, x) + inst["durations"][j][p], j, x))
         children.sort()
         hit = False
+        if reuse and env is None and len(prefix) % 2 == 0:
+            # a depth-first search written the plain way: it keeps the list
+            # the dispatcher handed out for this state and walks it while the
+            # (shared) dispatcher is reset and replayed for the sub-trees
+            idx = 0
+            while idx < len(held):
+                op = held[idx]
+                idx += 1
+                for x in op.machines:
+                    if rec(prefix + [(op.job_id, x)]):
+                        hit = True
+            return hit
         for _e, j, x in children:
             if rec(prefix + [(j, x)]):
                 hit = True
@@ -342,7 +355,7 @@ def check_case(case, ctx):
         f"(best filtered leaf {stats['best']}, {stats['nodes']} nodes explored)",
         opt=opt,
     )
-    if case.get("via_env"):
+    if case.get("via_env") and gen.num_ops(inst) <= 9:  # (every node resets the environment: costly)
         from job_shop_lib.dispatching import DispatcherObserverConfig
         from job_shop_lib.dispatching.feature_observers import FeatureObserverType
         from job_shop_lib.graphs import build_disjunctive_graph
